@@ -29,9 +29,10 @@ def A1r(ctx):
         ctx.missing("A1r", fk)
     else:
         n += 1
-        ea = EventAnalysis(prog, path_matcher({"dec": RTA + "ref_dec"}), stop=lambda i: prog.insts[i].key != fk).solve([root])
+        ea = EventAnalysis(prog, path_matcher({"dec": RTA + "ref_dec"}), stop=lambda i: prog.insts[i].key != fk,
+                           assume=assume_scenario(prog, {"rt::thread::Set::is_active": True})).solve([root])
         if ea.holds_on_all_paths(root, "dec") and "dec" in ea.may.get(root, ()):
-            ctx.ok("A1r", fk, "ref_dec on every path", [prog.fns[fk].loc()])
+            ctx.ok("A1r", fk, "ref_dec on every path of a live execution", [prog.fns[fk].loc()])
         else:
             ctx.bad("A1r", fk, "dropping a handle must decrement the modelled count on every path", prog.fns[fk].loc(), detail="dec")
     # clone: increment before cloning the std Arc
